@@ -175,6 +175,8 @@ def make_image(spec):
         a = (a * 65535).astype(np.uint16)
     elif dt == "bool":
         a = a > 0.5
+    elif dt == "int64":
+        a = np.round(a * 1000).astype(np.int64)
     else:
         a = a.astype(dt)
     d = len(shape)
@@ -530,7 +532,8 @@ class C17Engine(Engine):
         else:
             d = force.get("dim") or r.choice([1, 2, 2, 2, 3])
             spec = {"kind": "image", "cls": cls, "shape": force.get("shape") or [r.randint(2, 5) for _ in range(d)],
-                    "dtype": force.get("dtype") or r.choice(["float64", "float64", "float32", "uint8", "uint16", "bool"])}
+                    "dtype": force.get("dtype") or r.choice(["float64", "float64", "float32", "uint8", "uint16", "bool",
+                                                             "float64", "float32", "uint8", "int64", "float16"])}
             if cls == "Image" and r.random() < 0.25 and not force.get("scalar"):
                 spec["chan"] = r.choice([1, 2, 3])
         if r.random() < 0.3 and not force.get("noseries"):
